@@ -51,13 +51,106 @@ def r06c(rep, prog):
     return n
 
 
+def check_dijkstra_pred(rep, prog):
+    """R06e: in parmcb::dijkstra every path that stores a (new or improved) distance for w also stores the predecessor (true, relaxing edge) of
+    w: the closing path of a dropped edge is traced along predecessors, so an improved distance with a stale predecessor makes the emitted
+    cycle run over the edge through which w was *first* reached (valid cycle, wrong weight: the (2k-1) bound is lost)."""
+    what = 'every relaxation of parmcb::dijkstra stores the predecessor edge together with the distance'
+    n = 0
+    for fn in prog.fns('parmcb::dijkstra'):
+        cfg = fn.cfg
+        if cfg is None or len(fn.param_ids) < 5:
+            continue
+        distp, predp = fn.param_ids[3], fn.param_ids[4]
+        stores = []          # (node, map var, key)
+        for c in fn.walk():
+            if c.k == 'CallExpr' and c.callee and c.callee['g'] == 'boost::put' and len(c.args()) == 3 and ex.var_of(c.args()[0]) in (distp, predp):
+                stores.append((c, ex.var_of(c.args()[0]), ex.key(c.args()[1])))
+            if c.k in ('CXXOperatorCallExpr', 'BinaryOperator') and c.op == '=':
+                l_ = (c.c[1] if c.k == 'CXXOperatorCallExpr' else c.c[0]).strip_all()
+                if l_.k == 'DeclRefExpr':
+                    l_ = ex.alias_of(fn, l_) or l_
+                if l_.k == 'CXXOperatorCallExpr' and l_.op == '[]' and len(l_.c) == 3 and ex.var_of(l_.c[1]) in (distp, predp):
+                    stores.append((c, ex.var_of(l_.c[1]), ex.key(l_.c[2])))
+                if l_.k == 'CallExpr' and l_.callee and l_.callee['g'] == 'boost::get' and len(l_.args()) == 2 and ex.var_of(l_.args()[0]) in (distp, predp):
+                    stores.append((c, ex.var_of(l_.args()[0]), ex.key(l_.args()[1])))
+        loop_stores = [s_ for s_ in stores if s_[0].enclosing('ForStmt', 'CXXForRangeStmt') is not None]
+        if not loop_stores:
+            continue
+        n += 1
+        bad = None
+        for (d, mv, k_) in loop_stores:
+            if mv != distp:
+                continue
+            pd = cfg.pos_of(d)
+            mates = [p_ for (p_, mv2, k2) in loop_stores if mv2 == predp and k2 == k_ and cfg.pos_of(p_) and pd and
+                     (cfg.pos_of(p_)[0] == pd[0] or cfg.block_dominates(cfg.pos_of(p_)[0], pd[0]) and False or
+                      (cfg.block_dominates(pd[0], cfg.pos_of(p_)[0]) and cfg.block_postdominates(cfg.pos_of(p_)[0], pd[0])))]
+            if not mates:
+                bad = d
+                break
+        if bad is not None and any(mv2 == predp for (_p, mv2, _k) in loop_stores):
+            rep.violation('R06e', bad, fn, what, '`%s` (line %d) stores a distance on a path that does not store the predecessor of the same vertex: after a decrease the '
+                          'predecessor tree still points along the first, longer way' % (bad.text(40), bad.line), key='R06e|%s|stale-pred' % fn.g)
+        elif bad is not None:
+            rep.undecided('R06e', bad, fn, what, 'no predecessor store recognised in the relaxation loop')
+        else:
+            rep.ok('R06e', loop_stores[0][0], fn, what, '%d distance store(s), each paired with a predecessor store' % len([1 for s_ in loop_stores if s_[1] == distp]))
+    return n
+
+
+def check_entry_points_k(rep, prog):
+    """R06a (entry points): the public approx_mcb_sva_* functions hand every k to the algorithm object, which rejects k < 1.  A return in
+    front of that - a "k <= 1 needs no spanner" shortcut into the exact algorithm - answers k = 0 with a basis instead of the
+    documented exception.  The guards of every conditional return are evaluated with k := 0 in the arithmetic of their types."""
+    what = 'no public approximate entry point answers k = 0 without reaching the k check of the algorithm object'
+    n = 0
+    for fn in prog.functions:
+        if fn.implicit or fn.body is None or not fn.g.startswith('parmcb::approx_mcb_sva_') or fn.cfg is None:
+            continue
+        kp = [p_ for p_ in fn.param_ids if prog.vars[p_]['name'] == 'k']
+        if not kp and len(fn.param_ids) >= 3:
+            kp = [fn.param_ids[2]]
+        if not kp:
+            continue
+        kp = kp[0]
+        n += 1
+        bad = und = None
+        for r in ex.returns_of(fn):
+            conds = ex.ast_conditions(r)
+            if not conds:
+                continue
+            rv = r.c[0].strip_all() if r.c else None
+            if rv is not None and rv.k in ex.CALL_KINDS and rv.callee and rv.callee['g'].startswith('parmcb::approx_mcb_sva_') and \
+                    any(ex.var_of(a_) == kp for a_ in rv.args()):
+                continue            # delegation to a sibling entry point with the same k
+            try:
+                holds = all(bool(ex.ceval(c_, lambda x_: 0 if ex.var_of(x_) == kp else None)) == pol_ for (c_, pol_) in conds)
+            except ex.Unknown:
+                und = r
+                continue
+            if holds:
+                bad = (r, conds[-1][0])
+        if bad:
+            rep.violation('R06a', bad[0], fn, what, '`%s` (taken when `%s`, which holds for k = 0) returns a result for k = 0: the exception for an invalid k is never '
+                          'raised and cycles are emitted' % (bad[0].text(50), bad[1].text(30)), key='R06a|%s|entry-shortcut' % fn.g)
+        elif und is not None:
+            rep.undecided('R06a', und, fn, what, 'a conditional return whose guard is not an integer expression over k')
+        else:
+            rep.ok('R06a', fn.body, fn, what, 'every return goes through the algorithm object')
+    return n
+
+
 def run(rep, tier):
     c05.run_rules(rep, tier, list(RULES), RULES)
     rep.rule('R06c', 'closing-path Dijkstra has no early exit in the relaxation loop', floor=1)
+    rep.rule('R06e', 'closing-path Dijkstra stores the predecessor with every distance it stores', floor=1)
     progs = env.extract([env.witness_tu()], 'full')
     n = 0
     for prog in progs.values():
         n += r06c(rep, prog)
+        check_entry_points_k(rep, prog)
+        check_dijkstra_pred(rep, prog)
     if n == 0:
         rep.analysis_broken('parmcb::dijkstra is not instantiated (anchor vanished)')
     # the hop test the spanner construction relies on (shared with C15)
